@@ -29,7 +29,17 @@ def cost_spec(method, name):
     names = names.split('+')
     if kind == 'single':
         return table[names[0]]
-    return {n: table[n] for n in names}
+    # 'key=spec' maps the metric name `key` to another built-in specification
+    return {n.split('=')[0]: table[n.split('=')[-1]] for n in names}
+
+
+def user_spec(rep, name):
+    """the user's own specification objects: the SAME object is handed to the model every time the script uses that
+    specification (a user keeps `specs_a` and `specs_b` around and switches between them)"""
+    cache = rep.__dict__.setdefault('spec_objs', {})
+    if name not in cache:
+        cache[name] = cost_spec(rep.cfg['method'], name)
+    return cache[name]
 
 
 class _NxShim:
@@ -72,14 +82,14 @@ class component_order:
             m.nx = sv
 
 
-def build_model(cfg, build_seed):
+def build_model(cfg, build_seed, spec_obj=None):
     """a fresh wrapper of the seed network described by cfg, under process-level randomness
     `build_seed` (random weights, random input example, iteration order of graph components)"""
     with component_order(build_seed):
-        return _build_model(cfg, build_seed)
+        return _build_model(cfg, build_seed, spec_obj)
 
 
-def _build_model(cfg, build_seed):
+def _build_model(cfg, build_seed, spec_obj=None):
     from plinio.methods import PIT, MPS, SuperNet
     torch.manual_seed(build_seed)
     spec = cfg['spec']
@@ -88,7 +98,7 @@ def _build_model(cfg, build_seed):
         net.eval()
     shape = tuple(spec['in_shape'])
     ctor = dict(cfg.get('ctor', {}))
-    cs = cost_spec(cfg['method'], cfg['cost'])
+    cs = spec_obj if spec_obj is not None else cost_spec(cfg['method'], cfg['cost'])
     use_example = ctor.pop('input_example', False)
     if 'exclude_types' in ctor:
         tmap = {'conv': (nn.Conv1d, nn.Conv2d), 'linear': (nn.Linear,)}
@@ -116,7 +126,8 @@ class Replica:
     def __init__(self, cfg, build_seed, name):
         self.cfg = cfg
         self.name = name
-        self.model = build_model(cfg, build_seed)
+        self.spec_objs = {}
+        self.model = build_model(cfg, build_seed, spec_obj=user_spec(self, cfg['cost']))
         self.config_log = []       # the script's own configuration, re-issued by a restarted script
         self.cost_name = cfg['cost']
         self.make_optimizers()
@@ -147,7 +158,8 @@ class Replica:
         if stale_example:
             cfg = dict(cfg)
             cfg['ctor'] = dict(cfg.get('ctor', {}), input_example=True)
-        fresh = build_model(cfg, new_build_seed)
+        self.spec_objs = {}             # a new process: new specification objects
+        fresh = build_model(cfg, new_build_seed, spec_obj=user_spec(self, self.cfg['cost']))
         fresh_sd = {k: tuple(v.shape) for k, v in fresh.state_dict().items()}
         self.model = fresh
         self.make_optimizers()
@@ -249,7 +261,7 @@ def apply_config(rep, op, replay=False):
             kw.pop('temperature', None)
         m.update_softmax_options(**kw)
     elif k == 'set_cost_spec':
-        m.cost_specification = cost_spec(rep.cfg['method'], op['name'])
+        m.cost_specification = user_spec(rep, op['name'])
         rep.cost_name = op['name']
     else:
         raise ValueError(k)
@@ -422,6 +434,20 @@ def apply_op(rep, op, idx, run_seed, side_hook=None):
             if k == 'train_step':
                 sgd_step(rep, op.get('which', 'both'), op.get('lr', 0.05))
         return {'loss': float(loss.detach())}
+    if k == 'train_burst':
+        # many ordinary training iterations in a row (long-run effects: counters, warm-ups, running statistics)
+        last = None
+        for j in range(op['n']):
+            torch.manual_seed(torch_seed(run_seed, 'op', idx, j))
+            x, y = data_for(rep.cfg, run_seed, idx * 1000 + j)
+            m.zero_grad(set_to_none=True)
+            out = call_model(m, x)
+            loss = ((out - y) ** 2).mean() + op.get('lam', 1e-3) * total_cost(m)
+            if loss.requires_grad:
+                loss.backward()
+                sgd_step(rep, op.get('which', 'both'), op.get('lr', 0.05))
+            last = float(loss.detach())
+        return {'loss': last}
     if k == 'opt_step':
         sgd_step(rep, op.get('which', 'both'), op.get('lr', 0.05))
         return {'ok': 1}
@@ -492,9 +518,9 @@ def apply_observer(rep, op):
         return {'ok': 1}
     if k == 'switch_spec_and_back':
         cur = rep.cost_name
-        m.cost_specification = cost_spec(rep.cfg['method'], op['name'])
+        m.cost_specification = user_spec(rep, op['name'])
         total_cost(m)
-        m.cost_specification = cost_spec(rep.cfg['method'], cur)
+        m.cost_specification = user_spec(rep, cur)
         return {'ok': 1}
     if k == 'named_params':
         list(m.named_nas_parameters())
